@@ -151,6 +151,11 @@ pub fn share_cfg() -> Cfg {
 }
 
 pub fn run(ctx: &mut Ctx) {
+    if let Some(tape) = ctx.tape_case() {
+        // replay of a case found by the coverage-guided `model` target: the tape drives every generator decision
+        super::model_case("C03", ctx, &tape);
+        return;
+    }
     let tier = ctx.tier;
     let scale = if ctx.slow_tool { 0 } else { tier.pick(8u64, 800u64) };
 
